@@ -105,7 +105,7 @@ def main():
         "setup_cmd": f"cd /verif && {ENV} go1.26.8 build -o verifctl ./cmd/verifctl && ./verifctl setup",
         "hooks": {
             "guard": "verif",
-            "enable": "Go build tag: the checks compile /repo with `go1.26.8 test -c -tags verif` through a replace directive in /verif/go.mod",
+            "enable": "Go build tag: the checks compile /repo with `go1.26.8 test -c -tags verif` through a replace directive in /verif/go.mod. The instr build of a check compiles a scratch copy of /repo's working tree (under /verif/.build, removed afterwards) into which verifctl has inserted calls of a hook before statements of server.go and conn.go and one generated file (build tag verif); nothing of that is ever written to /repo",
             "baseline_off_cmd": "cd /repo && go test -vet=off -count=1 -timeout 25m ./...",
             "source_commits": hooks_commits,
             "add_only": True,
